@@ -3,6 +3,8 @@ package world
 import (
 	"runtime"
 	"runtime/debug"
+
+	simrt "verifsimrt"
 )
 
 // Trace is a recorded run: enough to replay it without any PRNG.
@@ -43,6 +45,7 @@ func init() {
 // RunSeed generates and executes one history for prop from seed.
 func RunSeed(prop, profile string, seed uint64, index int) (*Trace, *Stats) {
 	debug.SetPanicOnFault(true)
+	simrt.ResetPools()
 	r := NewRng(seed)
 	w := New(Config{Prop: prop, Profile: profile})
 	defer w.Close()
@@ -51,7 +54,7 @@ func RunSeed(prop, profile string, seed uint64, index int) (*Trace, *Stats) {
 	tr := &Trace{Prop: prop, Profile: profile, Seed: seed, Index: index}
 	// a scenario that has started is always completed (bounded), so that the
 	// operation it sets the stage for is actually reached
-	for i := 0; i < n || (w.PendingLen() > 0 && i < n+90); i++ {
+	for i := 0; i < n || (w.PendingLen() > 0 && i < n+200); i++ {
 		st := w.Generate(r)
 		w.Exec(&st)
 		tr.Steps = append(tr.Steps, st)
@@ -63,6 +66,7 @@ func RunSeed(prop, profile string, seed uint64, index int) (*Trace, *Stats) {
 // Replay executes the recorded steps in a fresh world.
 func Replay(tr *Trace) ([]Failure, *Stats) {
 	debug.SetPanicOnFault(true)
+	simrt.ResetPools()
 	w := New(Config{Prop: tr.Prop, Profile: tr.Profile, Slots: tr.Slots})
 	defer w.Close()
 	for i := range tr.Steps {
@@ -160,6 +164,46 @@ func Minimise(tr *Trace, sig string, maxReplays int) *Trace {
 					break
 				}
 			}
+		}
+	}
+	// schedule shrinking: turn recorded scheduler choices back into the canonical choice (-1)
+	// wherever the failure persists, first in halves, then one by one from the end
+	for i := range cur {
+		if len(cur[i].SC) < 2 {
+			continue
+		}
+		sc := append([]int32(nil), cur[i].SC...)
+		try := func(cand []int32) bool {
+			c2 := append([]Step(nil), cur...)
+			c2[i].SC = cand
+			return test(c2)
+		}
+		for span := len(sc) / 2; span >= 1; span /= 2 {
+			for at := 0; at+span <= len(sc); at += span {
+				allCanon := true
+				for _, v := range sc[at : at+span] {
+					if v > 0 {
+						allCanon = false
+					}
+				}
+				if allCanon {
+					continue
+				}
+				cand := append([]int32(nil), sc...)
+				for j := at; j < at+span; j++ {
+					cand[j] = -1
+				}
+				if try(cand) {
+					sc = cand
+				}
+			}
+		}
+		// drop a canonical tail
+		for len(sc) > 1 && sc[len(sc)-1] <= 0 {
+			sc = sc[:len(sc)-1]
+		}
+		if try(sc) {
+			cur[i].SC = sc
 		}
 	}
 	out := *tr
